@@ -79,12 +79,15 @@ def check(repo, tier):
                 if cplx:
                     run.add(Finding('C08', 'D4', where, cons, f'{scen}: the eigenvectors of a micro pencil whose {" and ".join(cplx)} is complex are replaced by their real parts '
                                     f'(the stored core is then not an eigenvector of the pencil and the returned eigenvalue not the Rayleigh quotient of the returned tensor)', f_, ln, {'scenario': scen}))
+            n_before = len(run.findings) if hasattr(run, 'findings') else None
+            l2rules.stale_obligation(run, 'C08', 'D2', repo, sc, entry, scen, mods)
             if exc is not None:
                 run.oblige('D2', (entry, scen, 'raises'), False)
-                l2rules.raised_finding(run, 'C08', 'D2', repo, entry, scen, exc)
+                # (an environment that is read stale is the cause; the exception -- often a mismatch between the symbolic rank of the old and the new core -- its consequence)
+                if n_before is None or len(run.findings) == n_before:
+                    l2rules.raised_finding(run, 'C08', 'D2', repo, entry, scen, exc)
                 continue
             run.oblige('D2', (entry, scen, tuple(ch)), True)
-            l2rules.stale_obligation(run, 'C08', 'D2', repo, sc, entry, scen, mods)
             evs, ets, its = res
             tensors = ets if isinstance(ets, list) else [ets]
             if any(t is None for t in tensors):
